@@ -239,3 +239,35 @@ impl Callable {
     #[verifier::external_body]
     pub fn args(&self) -> (r: VmIndex) ensures r == spec_callable_args(*self) { unimplemented!() }
 }
+
+// ---- function return (thread.rs execute_ after the instruction loop) and ExecuteContext::exit_scope
+impl StackFrame {
+    // StackFrame::current(stack) = stack.current_frame(): a StackFrame caching the top frame; `.expect("Frame")` on an empty frame list
+    #[verifier::external_body]
+    pub fn current(stack: Stack) -> (r: StackFrame)
+        requires stack.frames@.len() > 0
+        ensures r.stack == stack, r.frame == stack.frames@.last()
+    { unimplemented!() }
+    // `self.stack.frame()`: the cached frame
+    #[verifier::external_body]
+    pub fn frame(&self) -> (r: &Frame) ensures *r == self.frame { unimplemented!() }
+    // `context.stack.extend(&excess.fields)`: pushes the values in order (StackPrimitive::extend_to)
+    #[verifier::external_body]
+    pub fn extend(&mut self, vs: &Vec<Value>)
+        ensures final(self).stack.values@ == old(self).stack.values@ + vs@,
+                final(self).stack.frames@ == old(self).stack.frames@, final(self).frame == old(self).frame,
+                final(self).stack.max_stack_size == old(self).stack.max_stack_size,
+    { unimplemented!() }
+}
+// the excess-argument record parked below the function by the call protocol: data_value(0, fields)
+pub struct ExcessData { pub fields: Vec<Value> }
+pub enum ReprView { Data(ExcessData), Other }
+// `transfer!(context, &context.stack[i]).get_repr()`: looks at the value in frame slot i
+#[verifier::external_body]
+pub fn frame_slot_repr(sf: &StackFrame, i: VmIndex) -> (r: ReprView)
+    requires sf.wf(), i < sf@.len()
+    ensures r is Data ==> sf@[i as int] == data_value(0, r->Data_0.fields@),
+            (exists|fs: Seq<Value>| #[trigger] data_value(0, fs) == sf@[i as int]) ==> r is Data,
+{ unimplemented!() }
+// the continuation `context.do_call(n)`: opaque
+pub struct ReturnOutcome { pub ctx: ExecuteContext, pub calls_excess: Option<VmIndex>, pub stack_exists: bool }
